@@ -141,11 +141,35 @@ def p_norm_contract(p_kind):
         e.axiom(z3.And(z3.Implies(a0 <= a1, pw(a0, pz + 1) <= pw(a1, pz + 1)), z3.Implies(a1 <= a0, pw(a1, pz + 1) <= pw(a0, pz + 1))))
         return []
 
+    def hints_flat(st):
+        # A7 (real-analysis facts about the library functions, instantiated at this segment): for u = 1 + t > 0
+        #   exp((p+1) * log(u)) == u^(p+1)          and          u^(p+1) * big^(p+1) == (u * big)^(p+1) = small^(p+1)
+        from pyvc.models import NP
+        e = st.eng
+        p = st.g["p"]
+        t, big = lift(st.t), lift(st.big)
+        u = 1.0 + t
+        x = (p + 1) * NP.log1p(st.t)
+        ex = NP.exp(x)
+        small = u * big
+        if isinstance(p, int):
+            upow, bpow, spow = num_pow(u, p + 1), num_pow(big, p + 1), num_pow(small, p + 1)
+        else:
+            pw = pow_uf()
+            pz = to_real(to_z3(p))
+            f = lambda v: Num(pw(to_real(lift(v).t), pz + 1))
+            upow, bpow, spow = f(u), f(big), f(small)
+            e.axiom(z3.Implies(u.t > 0, to_z3(upow) * to_z3(bpow) == to_z3(spow)))
+            e.axiom(z3.And(to_z3(bpow) == to_real(big.t) * pw(to_real(big.t), pz), to_z3(spow) == to_real(small.t) * pw(to_real(small.t), pz)))
+        e.axiom(z3.Implies(u.t > 0, to_z3(lift(ex)) == to_z3(upow)))
+        return [("small_end_is_u_times_big", lift(small) == ite(abs(lift(st.y0)) <= abs(lift(st.y1)), abs(lift(st.y0)), abs(lift(st.y1))))]
+
     return Contract(
         MOD, "_p_norm", make_args, requires=requires, ensures=ensures, definedness="P",
         loops={0: LoopContract("for l in", inv_outer, cls="P"),
                1: LoopContract("for [[x0, y0], [x1, y1]] in", inv_inner, cls="P")},
-        hints=[("b = y0 - slope * x0", hints), ("b = y0 - slope * x0", hints_pow)],
+        hints=[("b = y0 - slope * x0", hints), ("b = y0 - slope * x0", hints_pow),
+               ("t = (min(np.abs(y0), np.abs(y1)) - big) / big", hints_flat)],
         variant="p=%s" % p_kind)
 
 
